@@ -433,6 +433,8 @@ h1_recv_headers (request_st * const r, connection * const con)
                 } /*(else fall through to error out in next block)*/
             }
         }
+        else if (discard_blank && 1 == clen && c->mem->ptr[c->offset] == '\r')
+            continue; /* lone CR of blank line (CRLF) split across reads */
 
         if (((unsigned char *)c->mem->ptr)[c->offset] < 32) {
             /* expecting ASCII method beginning with alpha char
